@@ -53,18 +53,11 @@ SHRINKERS = ('delslice', 'delslice', 'clear', 'setslice', 'replace')
 # Trigger tags of the defects the unchanged tree is known to have (DESIGN 4/C03 "Seen today" plus what this engine
 # found).  Avoidance runs never emit an event carrying one of these tags.  ('norepeat-past-end', the byteswap
 # (repeat=False) pattern running past `end`, keeps its own tag but is no longer avoided: /repo commit a15c797 fixed it.)
-AVOID_TAGS = frozenset({
-    'fmt-iterator',                  # byteswap(one-shot iterator)
-    'empty-range',                   # rol/ror(n, k, k)
-    'self-operand,pos!=0',           # s.overwrite(s, pos != 0)
-    'range-oob',                     # set(v, range(...)) containing out-of-range positions
-    'range-neg-bound',               # set(v, range(...)) with a negative start/stop
-    'empty,pos=None',                # set(v) on an empty bitstring
-    'int,step=-1,fwd-len-differs',   # s[a:b:-1] = int where len(s[a:b]) != number of selected positions
-    'int,step<-1,to-start',          # s[a::-k] = 0/1 running down to index 0
-    'int,step<-1,from-before-start', # s[a:b:-k] = 0/1 with a < -len (selects nothing)
-    'index=None',                    # s[None] = v
-})
+AVOID_TAGS = frozenset()
+# (Every defect these trigger tags were introduced for has been repaired in /repo - see known_findings.txt - so nothing
+#  is avoided or thinned at present; the tags remain as labels in signatures: 'fmt-iterator', 'empty-range',
+#  'self-operand,pos!=0', 'range-oob', 'range-neg-bound', 'empty,pos=None', 'int,step=-1,fwd-len-differs',
+#  'int,step<-1,to-start', 'int,step<-1,from-before-start'.  A future `known:` entry puts its tag back here.)
 
 PACK_SIZE = {'b': 1, 'B': 1, 'h': 2, 'H': 2, 'l': 4, 'L': 4, 'i': 4, 'I': 4, 'q': 8, 'Q': 8, 'e': 2, 'f': 4, 'd': 8}
 _FMT_RE = re.compile(r'^[<>@=]?((?:\d*[bBhHlLiIqQefd])+)$')
@@ -1505,6 +1498,17 @@ class EMut(Engine):
                 b = g.int(-1, a)
                 if not wild and b < 0 and self.cfg['avoid']:
                     b = 0
+            k = g.r.random()
+            if k < 0.12 and n:
+                # a range that runs through zero into negative positions (which count from the end, as in a list)
+                if c > 0:
+                    a, b = -g.int(1, n), g.int(0, n)
+                else:
+                    a, b = g.int(0, n - 1), -g.int(2, n + 2)
+            elif k < 0.18 and n:
+                # wholly negative positions
+                lo = -g.int(1, n)
+                a, b = (lo, g.int(lo, 0)) if c > 0 else (g.int(lo, -1), lo - 1)
             return {'t': 'range', 'a': a, 'b': b, 'c': c}
         cnt = g.pick([0, 1, 2, 3, 3, 5, 8])
         ps = [self._index(g, n) if n else g.pos(0) for _ in range(cnt)]
